@@ -21,6 +21,12 @@ checks = {
    "Ordering 0<WP<FC<=PS<1 and WP<WRED<FC hold for every layer/day of the generated runs over table / explicit / PTF routes; same level => same parameters (one open finding for the input set-up)."),
  "C19": ("simmon", "exploration", "3 C19", "runtime monitoring: envelope assertion on every layer temperature every day + diffusion-number invariant",
    "Temperatures stay inside the running envelope of imposed boundary values; diffusion number <= 1/2 on every layer-day observed."),
+ "C12": ("fnmon", "exploration", "3 C12", "runtime monitoring: exhaustive execution of the real date conversion functions against a calendar oracle (Go time package)",
+   "Exhaustive over the stated date range: all 72,684 dates x 4 formats x 4 separator variants x admissible century splits, text->number->text identity, consecutive numbering, day-of-year, leap years, inverse function."),
+ "C17": ("fnmon", "exploration", "3 C17", "runtime monitoring: the real calcHermesBatch and hermes2go binaries executed for every (lines, nodes, encoding) triple up to the bound; executed log ids recorded and checked for exactly-once",
+   "Exhaustive to the bound (quick L<=24,K<=26; thorough L<=60,K<=64; five encodings): ranges contiguous/disjoint/covering, count equals -size, every range executed by hermes2go -lines, each line id executed exactly once."),
+ "C20": ("simmon", "exploration", "3 C20", "runtime monitoring: groundwater level read at the probe on every simulated day compared with an independent interpolation / sinusoid; dense calls of the public interpolation function",
+   "Level of every simulated day equals series value / linear interpolation / nearest end value, or the configured sinusoid within [min,max]; function-level: nodes, neighbours of nodes, outside span, random interior days of generated series."),
 }
 
 not_applicable = {
@@ -32,13 +38,10 @@ pending = {  # not yet built: listed as not claimed until their check exists
  "C05": "check under construction",
  "C10": "check under construction",
  "C11": "check under construction",
- "C12": "check under construction",
  "C13": "check under construction",
  "C14": "check under construction",
  "C16": "check under construction",
- "C17": "check under construction",
  "C18": "check under construction",
- "C20": "check under construction",
 }
 
 def main():
@@ -48,8 +51,10 @@ def main():
      "hooks": {"guard": "verif", "enable": "go build -tags verif (checks run ./build.sh which rebuilds harness and binaries from /repo's working tree)",
                "baseline_off_cmd": "./baseline_off.sh", "source_commits": HOOK_COMMITS, "add_only": True},
      "engines": [
-       {"name": "simmon", "path": "harness/", "serves_properties": sorted(k for k,v in checks.items() if v[0]=="simmon"),
+       {"name": "simmon", "path": "harness/", "serves_properties": sorted(k for k,v in checks.items() if "simmon" in v[0]),
         "kind_free_text": "in-process monitors on probes of the real day loop, child worker processes, seeded scenario generator"},
+       {"name": "fnmon", "path": "harness/", "serves_properties": sorted(k for k,v in checks.items() if "fnmon" in v[0] or k in ("C20",)),
+        "kind_free_text": "dense / exhaustive execution of real public functions and real binaries against independent reference oracles, sharded over child processes"},
      ],
      "checks": [],
      "notes": "Runtime monitoring only. Exit 0 held / 1 violation / 2 inconclusive. known_findings.json lists repaired (fixed) and open findings.",
